@@ -599,4 +599,123 @@ def id_fixed(ctx):
             out.append(ok('ID-fixed', key, 'plain `%s`, set by the constructor only' % ty_prefix.rstrip('<')))
     if n < 8:
         out.append(undecided('ID-fixed', 'floor', 'only %d of %d identity fields found' % (n, len(IDENTITY_FIELDS))))
+    out.extend(_id_fresh(ctx))
+    return out
+
+
+def _fresh_queue_expr(e, depth=0):
+    """`Arc::new(<a JobQueue constructor or literal>)`, possibly through clones / moves: a queue nobody else can hold yet."""
+    while e[0] == 'call' and e[1].endswith('::clone') and e[2]:
+        e = e[2][0]
+    if e[0] == 'call' and e[1] == 'alloc::sync::Arc::new' and e[2]:
+        a = e[2][0]
+        if a[0] == 'call' and a[1].startswith('desync::JobQueue::'):
+            return True
+        if a[0] == 'agg' and len(a) > 2 and str(a[2]).startswith('desync::JobQueue'):
+            return True
+    return False
+
+
+def _id_fresh(ctx):
+    """One queue per object: the queue a new Desync serialises its value with is made for it (`Arc::new(JobQueue::new())` of that very call,
+    directly or through `queue()` / `create_job_queue()`), never taken from a place that other objects can reach (a pool of spare queues, a
+    cache, a static).  Two objects on one queue wait for each other's operations (and `try_sync` reports Busy for the other's work)."""
+    F = ctx.F
+    out = []
+    R = 'ID-fixed'
+    cj = F.fn('desync::Scheduler::create_job_queue')
+    key = 'Scheduler::create_job_queue|returns-a-fresh-queue'
+    if not cj:
+        out.append(undecided(R, key, 'anchor not found'))
+    else:
+        # every value that reaches the return place
+        rets = []
+        for b in cj.blocks:
+            if b['cleanup']:
+                continue
+            for s_ in b['stmts']:
+                if s_['k'] == 'assign' and not s_['pl']['p'] and s_['pl']['l'] == 0:
+                    rets.append(cj.expr_of_rvalue(s_['rv']))
+            t = b['term']
+            if t['k'] == 'call' and t.get('dest') and not t['dest']['p'] and t['dest']['l'] == 0:
+                rets.append(cj.expr_of_call(t))
+        if not rets:
+            out.append(undecided(R, key, 'no assignment of the return value found'))
+        elif all(_fresh_queue_expr(e) for e in rets):
+            out.append(ok(R, key, 'returns `Arc::new(JobQueue::new())` of this call on every path', fn=cj.name))
+        else:
+            badx = [e for e in rets if not _fresh_queue_expr(e)][0]
+            out.append(bad(R, key, 'create_job_queue can return a queue it did not create in this call (%s): a queue that something else still holds - another Desync, a pool of spares, a cache - makes two objects '
+                           'share one order of execution, so operations on one wait for the other\'s and try_sync reports Busy for work that is not the object\'s own' % render(badx)[:80], fn=cj.name))
+    # the id a queue is parked under for a polling future, and the id a poll compares it with, is the future's construction-time `id`
+    # (a value that moves with the future), never something recomputed from where the future happens to be or who polls it
+    def _own_id(e):
+        while e[0] == 'call' and e[1].endswith('::clone') and e[2]:
+            e = e[2][0]
+        return e[0] == 'field' and e[2] == 'id' and 'SchedulerFuture' in str(e[3])
+
+    def _copied_id(e):
+        # the payload of an existing WaitingForPoll value (a transition function that rebuilds the state it found), or a value handed in
+        return (e[0] == 'field' and e[1][0] == 'downcast' and e[1][2] == 'WaitingForPoll') or e[0] in ('arg', 'local', 'upvar')
+    nid = 0
+    for fn in F.crate_fns():
+        for bi, b in enumerate(fn.blocks):
+            if b['cleanup']:
+                continue
+            for s_ in b['stmts']:
+                if s_['k'] == 'assign' and s_['rv']['k'] == 'agg' and s_['rv'].get('adt') == 'desync::QueueState' and s_['rv'].get('variant') == 'WaitingForPoll' and s_['rv'].get('ops'):
+                    nid += 1
+                    key = '%s|parks-under-the-futures-own-id' % short(fn.root or fn.name)
+                    e = fn.expr_of_operand(s_['rv']['ops'][0])
+                    if _own_id(e):
+                        out.append(ok(R, key, 'WaitingForPoll(self.id)', fn=fn.name))
+                    elif _copied_id(e):
+                        nid -= 1
+                    else:
+                        out.append(bad(R, key, 'the queue is parked as WaitingForPoll(%s), which is not the `id` the future was given when it was made: a future that is moved, re-wrapped or polled from elsewhere '
+                                       'no longer recognises the queue it parked, answers "somebody else is draining" and the suspended operation is never polled again' % render(e)[:60], loc=fn.loc(bi), fn=fn.name))
+            t = b['term']
+            if t['k'] == 'call' and (t['func'].get('fn') or '').endswith('PartialEq::eq') and len(t['args']) == 2 and not fn.name.startswith('<'+'desync::QueueState'):
+                es = [fn.expr_of_operand(a) for a in t['args']]
+                st = [x for x in es if x[0] == 'field' and x[1][0] == 'downcast' and x[1][2] == 'WaitingForPoll']
+                if len(st) == 1:
+                    nid += 1
+                    other = [x for x in es if x is not st[0]][0]
+                    key = '%s|compares-with-the-futures-own-id' % short(fn.root or fn.name)
+                    if _own_id(other):
+                        out.append(ok(R, key, 'WaitingForPoll(owner) is compared with self.id', fn=fn.name))
+                    elif _copied_id(other):
+                        nid -= 1
+                    else:
+                        out.append(bad(R, key, 'the owner of a parked queue is compared with %s, not with the `id` the future was given when it was made: the future that parked the queue may not recognise it' % render(other)[:60], loc=fn.loc(bi), fn=fn.name))
+    if nid < 1:
+        out.append(undecided(R, 'floor:future-id', 'no site that parks a queue under a future id (or compares one) was recognised'))
+    fq = F.fn('desync::queue')
+    n = 0
+    for fn in F.crate_fns():
+        if fn.is_closure or not fn.name.startswith('desync::Desync::'):
+            continue
+        for b in fn.blocks:
+            if b['cleanup']:
+                continue
+            for s_ in b['stmts']:
+                if s_['k'] == 'assign' and s_['rv']['k'] == 'agg' and s_['rv'].get('adt') == 'desync::Desync' and s_['rv'].get('ops'):
+                    n += 1
+                    key = '%s|queue-made-for-this-object' % short(fn.name)
+                    q = fn.expr_of_operand(s_['rv']['ops'][0])
+                    while q[0] == 'call' and q[1].endswith('::clone') and q[2]:
+                        q = q[2][0]
+                    if _fresh_queue_expr(q) or (q[0] == 'call' and q[1] in ('desync::queue', 'desync::Scheduler::create_job_queue')):
+                        out.append(ok(R, key, 'the queue of the new Desync is `%s` of this call' % render(q)[:50], fn=fn.name))
+                    else:
+                        out.append(bad(R, key, 'a Desync is built around a queue that this constructor did not create (%s): whoever else holds that queue shares the object\'s order of execution' % render(q)[:80], fn=fn.name))
+    if n < 1:
+        out.append(undecided(R, 'floor:constructors', 'no constructor of Desync found'))
+    if fq:
+        key = 'queue|returns-a-fresh-queue'
+        e = fq.expr_of_local(0)
+        if _fresh_queue_expr(e) or (e[0] == 'call' and e[1] == 'desync::Scheduler::create_job_queue'):
+            out.append(ok(R, key, 'queue() returns what create_job_queue() made', fn=fq.name))
+        else:
+            out.append(bad(R, key, 'queue() returns %s instead of a queue created by this call' % render(e)[:80], fn=fq.name))
     return out
